@@ -15,7 +15,7 @@ BUILTIN_FUNCS = ('isinstance', 'issubclass', 'len', 'set', 'list', 'dict',
                  'sorted', 'min', 'max', 'sum', 'id', 'hash', 'print',
                  'super', 'type', 'enumerate', 'zip', 'frozenset', 'any',
                  'all', 'repr', 'getattr', 'hasattr', 'reversed', 'object',
-                 'abs', 'function')
+                 'abs', 'function', 'map', 'filter')
 
 
 class Hooks(object):
@@ -250,6 +250,92 @@ class Interp(BuiltinsMixin):
                 cur = nxt
             return [(q, None) for q in cur]
         return self._ev(st.value, fr, path, k)
+
+    def st_AnnAssign(self, st, fr, path):
+        # `x: T = v` is `x = v`; a bare annotation binds nothing
+        if st.value is None:
+            return [(path, None)]
+        a = ast.Assign(targets=[st.target], value=st.value)
+        ast.copy_location(a, st)
+        return self.st_Assign(a, fr, path)
+
+    # -- match statement: desugared into the if/elif chain it abbreviates --
+    def st_Match(self, st, fr, path):
+        self._match_id = getattr(self, '_match_id', 0) + 1
+        subj = '__match_subject_%d' % self._match_id
+        a = ast.Assign(targets=[ast.Name(id=subj, ctx=ast.Store())],
+                       value=st.subject)
+        stmts = [a] + self._match_cases(st.cases, subj, st)
+        for n in stmts:
+            ast.copy_location(n, st)
+            ast.fix_missing_locations(n)
+        return self.exec_block(stmts, fr, path)
+
+    def _match_cases(self, cases, subj, st):
+        if not cases:
+            return [ast.Pass()]
+        c = cases[0]
+        cond, binds = self._match_pattern(
+            c.pattern, ast.Name(id=subj, ctx=ast.Load()), st)
+        rest = self._match_cases(cases[1:], subj, st)
+        body = list(binds)
+        if c.guard is not None:
+            body.append(ast.If(test=c.guard, body=list(c.body), orelse=rest))
+        else:
+            body.extend(c.body)
+        if cond is None:
+            return body
+        return [ast.If(test=cond, body=body or [ast.Pass()], orelse=rest)]
+
+    def _match_pattern(self, pat, subject, st):
+        """-> (condition expr | None (always), [binding statements])"""
+        def conj(cs):
+            cs = [c for c in cs if c is not None]
+            if not cs:
+                return None
+            if len(cs) == 1:
+                return cs[0]
+            return ast.BoolOp(op=ast.And(), values=cs)
+        if isinstance(pat, ast.MatchAs):
+            binds = []
+            cond = None
+            if pat.pattern is not None:
+                cond, binds = self._match_pattern(pat.pattern, subject, st)
+            if pat.name is not None:
+                binds = binds + [ast.Assign(
+                    targets=[ast.Name(id=pat.name, ctx=ast.Store())],
+                    value=subject)]
+            return cond, binds
+        if isinstance(pat, ast.MatchValue):
+            return ast.Compare(left=subject, ops=[ast.Eq()],
+                               comparators=[pat.value]), []
+        if isinstance(pat, ast.MatchSingleton):
+            return ast.Compare(left=subject, ops=[ast.Is()],
+                               comparators=[ast.Constant(pat.value)]), []
+        if isinstance(pat, ast.MatchOr):
+            conds = []
+            for q in pat.patterns:
+                c, b = self._match_pattern(q, subject, st)
+                if b:
+                    self.inconclusive('or-pattern with captures', st)
+                if c is None:
+                    return None, []
+                conds.append(c)
+            return ast.BoolOp(op=ast.Or(), values=conds), []
+        if isinstance(pat, ast.MatchClass):
+            if pat.patterns:
+                self.inconclusive('class pattern with positional '
+                                  'sub-patterns', st)
+            conds = [ast.Call(func=ast.Name(id='isinstance', ctx=ast.Load()),
+                              args=[subject, pat.cls], keywords=[])]
+            binds = []
+            for attr, q in zip(pat.kwd_attrs, pat.kwd_patterns):
+                sub = ast.Attribute(value=subject, attr=attr, ctx=ast.Load())
+                c, b = self._match_pattern(q, sub, st)
+                conds.append(c)
+                binds.extend(b)
+            return conj(conds), binds
+        self.inconclusive('match pattern %s' % pat.__class__.__name__, st)
 
     def st_AugAssign(self, st, fr, path):
         load = ast.copy_location(_as_load(st.target), st)
